@@ -142,6 +142,24 @@ theorem lazy_expiry (y : Sys) (i now : Nat) (o : Obj) (ho : y.pool[i]? = some o)
   · rw [List.getElem?_set_self hlt]; rfl
   · simp [bmUpd]
 
+/-- **A fresh ejection is not lost to a concurrent expiry check.** `IsBackendHealthy` (lazy
+expiry) and `MarkBackendUnhealthy` of the same backend are two critical sections; in whichever
+order they run, the backend ends ejected with its new window running: the check that runs second
+sees the new deadline and does not flip the flag back. -/
+theorem eject_survives_expiry_check (y : Sys) (i now d : Nat) (o : Obj) (ho : y.pool[i]? = some o) :
+    (∀ o', (isHealthyAt y i now).1.pool[i]? = some o' →
+        (ejectObj o' now d).b.healthy = false ∧ (ejectObj o' now d).b.inWindow now = true) ∧
+    (isHealthyAt { y with pool := y.pool.set i (ejectObj o now d) } i now).2 = false ∧
+    (isHealthyAt { y with pool := y.pool.set i (ejectObj o now d) } i now).1.pool[i]? = some (ejectObj o now d) := by
+  have hlt : i < y.pool.length := (List.getElem?_eq_some_iff.mp ho).1
+  refine ⟨?_, ?_, ?_⟩
+  · intro o' _
+    simp [ejectObj, Backend.inWindow]
+  · have hn : ¬ (now + d < now) := by omega
+    simp [isHealthyAt, List.getElem?_set_self hlt, ejectObj, expired, hn]
+  · have hn : ¬ (now + d < now) := by omega
+    simp [isHealthyAt, List.getElem?_set_self hlt, ejectObj, expired, hn]
+
 /-! ### the metrics / admin mirror -/
 
 /-- the admin listing and the metrics mirror never show "healthy" for an ejected backend -/
